@@ -581,14 +581,34 @@ def _r155(ctx: Ctx) -> None:
             break
     ctx.ob('R15.5', site, 'get_single_qubit_error_rate: patterns and columns for k=2 over all 16 row patterns', bad is None,
            bad or '', key='get_single_qubit_error_rate|patterns')
-    # get_results_df sector slices
+    # get_results_df: evaluate the p_x / p_z expressions on a concrete effective-error table (k = 2)
     bci = m.cls('BatchSimulation')
     fn = bci.methods['get_results_df']
-    txt = ast.unparse(fn).replace(' ', '').replace('\n', '').replace('"', "'")
-    okx = "batch_result['p_x']=np.array(sim.results['effective_error'])[:,:n_logicals].any(axis=1).mean()" in txt
-    okz = "batch_result['p_z']=np.array(sim.results['effective_error'])[:,n_logicals:].any(axis=1).mean()" in txt
-    ctx.ob('R15.5', site_of(bci.module, fn), 'get_results_df: p_x from the first k columns, p_z from the last k', okx and okz,
-           'sector slices not in the expected form', key='BatchSimulation.get_results_df|slices')
+    eff = [[1, 0, 0, 0], [0, 0, 0, 1], [0, 1, 1, 0], [0, 0, 0, 0], [1, 1, 0, 0]]       # rows [x0, x1, z0, z1]
+    want = {'p_x': 3 / 5, 'p_z': 2 / 5}
+    from ..interp import Env as _Env
+    for key in ('p_x', 'p_z'):
+        asg = [n for n in ast.walk(fn) if isinstance(n, ast.Assign) and isinstance(n.targets[0], ast.Subscript)
+               and isinstance(n.targets[0].slice, ast.Constant) and n.targets[0].slice.value == key
+               and ast.unparse(n.value) not in ('np.nan', 'numpy.nan')]
+        ctx.need(len(asg) == 1, 'R15.5', site_of(bci.module, fn), f"get_results_df: assignment of '{key}' not found")
+        it = Interp(m, _HNp())
+        e = _Env(bci.module)
+        sim = Obj(None, 'sim')
+        sim.fields['results'] = {'effective_error': [list(r) for r in eff]}
+        sim.fields['n_results'] = len(eff)
+        e.vars.update({'sim': sim, 'n_logicals': 2, 'batch_result': {'k': 2}, 'self': Obj(bci, 'batch')})
+        try:
+            v = it.ev(asg[0].value, e)
+        except Exception as ex:  # noqa
+            raise AnalysisError('R15.5', site_of(bci.module, asg[0]), f"'{key}' expression not evaluable: {ex!r}")
+        ok = isinstance(v, (float, np.floating)) and abs(float(v) - want[key]) < 1e-12
+        if v is TOP:
+            raise AnalysisError('R15.5', site_of(bci.module, asg[0]), f"'{key}' expression not evaluable")
+        ctx.ob('R15.5', site_of(bci.module, asg[0]), f"get_results_df: {key} = fraction of trials with a "
+                                                     f"{'X' if key == 'p_x' else 'Z'}-type logical effect (k=2 table)", ok,
+               f'{key} = {v!r} on the test table, expected {want[key]} ({key[-1].upper()} effects are the '
+               f'{"first" if key == "p_x" else "last"} k columns)', key=f'BatchSimulation.get_results_df|{key}', facts=repr(v))
 
 
 # ------------------------------------------------------------------- R15.6
@@ -610,10 +630,15 @@ def _r156(ctx: Ctx) -> None:
     loads = []
     for n in ast.walk(loop):
         if isinstance(n, ast.Assign) and isinstance(n.targets[0], ast.Name) and n.targets[0].id == 'data':
-            loads.append(ast.unparse(n.value).replace(' ', ''))
-    want = {"json.loads(g.read().decode('utf-8'))", 'json.load(f)', 'load_json(nominal_path)'}
-    ctx.ob('R15.6', site, 'read_files: zip+gz, zip+json and plain files are all decoded to `data`', set(loads) == want,
-           f'data loaded by {loads}', key='read_files|branches', facts=loads)
+            loads.append(n.value)
+    ctx.need(len(loads) >= 2, 'R15.6', site, 'read_files: container branches not recognised')
+    for v in loads:
+        f = ast.unparse(v.func) if isinstance(v, ast.Call) else ''
+        okf = f in ('json.load', 'json.loads', 'load_json')
+        if not okf:
+            raise AnalysisError('R15.6', site_of(ami, v), f'read_files: data loaded by an unrecognised call {ast.unparse(v)}')
+        ctx.ob('R15.6', site_of(ami, v), f'read_files: branch decodes JSON into `data` ({f})', True, '',
+               key=f'read_files|load[{ast.unparse(v)}]')
     # read_entry on nested (merged) lists
     rmi, rfn = m.func('panqec.analysis', 'read_entry')
 
@@ -638,10 +663,30 @@ def _r156(ctx: Ctx) -> None:
     ctx.ob('R15.6', site_of(rmi, rfn), 'read_entry flattens merged (nested) lists, one entry per record', bad is None, bad or '',
            key='read_entry|nested')
     cmi, mfn = m.func('panqec.cli', 'merge_results')
-    txt = ast.unparse(mfn).replace(' ', '').replace('\n', '')
-    ok = 'combined_results.append(load_json(file))' in txt and 'save_json(combined_results,output_file)' in txt
-    ctx.ob('R15.6', site_of(cmi, mfn), 'merge_results appends every loaded file and saves through save_json', ok,
-           'merge loop not in the expected form', key='merge_results|form')
+    saved = []
+
+    class HM(Hooks):
+        def call(self, it_, func, args, kwargs, node, env):
+            if isinstance(func, Closure) and getattr(func.fn, 'name', '') == 'load_json':
+                return ('loaded', args[0])
+            if isinstance(func, Closure) and getattr(func.fn, 'name', '') == 'save_json':
+                saved.append((args, kwargs))
+                return None
+            if isinstance(func, Ext) and func.name == 'builtins.print':
+                return None
+            return NOT_HANDLED
+    it = Interp(m, HM())
+    outs = guard('R15.6', cmi, mfn)(lambda: it.explore(
+        lambda: (saved.clear(), it.call_closure(Closure(mfn, cmi), [('a.json', 'b.json.gz', 'c.json')], {'output_file': 'out.json.gz'}, mfn),
+                 list(saved))[2]))
+    okm = len(outs) == 1 and outs[0].kind == 'return' and len(outs[0].value) == 1
+    if okm:
+        a, kw = outs[0].value[0]
+        b = dict(zip(('data', 'file'), a))
+        b.update(kw)
+        okm = b.get('data') == [('loaded', 'a.json'), ('loaded', 'b.json.gz'), ('loaded', 'c.json')] and b.get('file') == 'out.json.gz'
+    ctx.ob('R15.6', site_of(cmi, mfn), 'merge_results saves the list of all loaded files, whole, to the output file', okm,
+           f'{outs!r}', key='merge_results|form')
 
 
 def run(ctx: Ctx) -> None:
@@ -649,8 +694,8 @@ def run(ctx: Ctx) -> None:
     ctx.rule('R15.2', 'group-by key = full identity (code, noise, decoder, method strings, error rate), sorted', floor=6)
     ctx.rule('R15.3', 'estimator / standard error / word error rate formulas (sympy normal forms)', floor=11)
     ctx.rule('R15.4', 'every *_se column derives from the standard-error function, estimates do not', floor=8)
-    ctx.rule('R15.5', 'sector counts use the codespace mask and the [X|Z] effect layout', floor=4)
-    ctx.rule('R15.6', 'all containers end in read_entry; merged lists are flattened', floor=4)
+    ctx.rule('R15.5', 'sector counts use the codespace mask and the [X|Z] effect layout', floor=5)
+    ctx.rule('R15.6', 'all containers end in read_entry; merged lists are flattened', floor=5)
     ctx.trust('pandas groupby/sum/aggregate/first semantics; sympy simplification (python3-vt)')
     _r151_152(ctx)
     _r153(ctx)
